@@ -317,6 +317,19 @@ def drivers(r, obs):
             return (v for v in got if not (isinstance(v, tuple) and v and v[0] == "B"))
         res.append(("split-run-bare-accumulator", outcome(d_bare2)))
 
+        # ... bare and FIRST, before branches that change the contexts they receive in place
+        for b in (1, 2, None):
+            def d_bare3(b=b):
+                import lena.variables
+                _, acc, _ = build_chain(r)
+                got = lena.core.Split(
+                    [acc,
+                     (lena.variables.Variable("mut", lambda x: x, type="t2"),
+                      gen.func("ctx:zz"), gen.Tag("B")),
+                     (gen.func("ctx:yy"), gen.Tag("B"))], bufsize=b).run(flow())
+                return (v for v in got if not (isinstance(v, tuple) and v and v[0] == "B"))
+            res.append(("split-run-bare-accumulator", outcome(d_bare3)))
+
     # the chain beside another branch (its buffer is then a deep copy)
     def d_split3():
         pre, acc, post = build_chain(r)
@@ -504,6 +517,15 @@ class SrcObj(Logged):
         self.log.append("src")
         yield 10
         yield (11, {"s": 1})
+
+
+class SrcIterObj(SrcObj):
+    """A data set that is callable (generates its events) and also iterable (over the names
+    of its files): called, where a callable is documented to be called."""
+
+    def __iter__(self):
+        self.log.append("iter")
+        return iter(["file1", "file2"])
 
 
 class Custom(Logged):
@@ -751,7 +773,7 @@ def make_el(kind):
            "custom_len0": _falsy(Custom, "len0"), "custom_boolfalse": _falsy(Custom, "bool"),
            "run_plain_len0": _falsy(RunPlain, "len0"), "fcr_boolfalse": _falsy(FCR, "bool"),
            "callobj_len0": _falsy(CallObj, "len0"), "fc_len0": _falsy(FC, "len0"),
-           "srcobj_boolfalse": _falsy(SrcObj, "bool"),
+           "srcobj_boolfalse": _falsy(SrcObj, "bool"), "srciterobj": SrcIterObj,
            "fill_into_len0": _falsy(FI, "len0")}[kind]
     el = cls()
     return el, lambda: el.log
@@ -762,7 +784,8 @@ KINDS = ["callobj", "srcobj", "function", "genfunction", "list", "range", "custo
          "fcr", "run_and_call", "fi_call_run", "call_runbreak",
          "noncallable", "none", "int", "str",
          "custom_len0", "custom_boolfalse", "run_plain_len0", "fcr_boolfalse", "callobj_len0",
-         "fc_len0", "srcobj_boolfalse", "fill_into_len0", "run_break_false", "run_break_none"]
+         "fc_len0", "srcobj_boolfalse", "fill_into_len0", "run_break_false", "run_break_none",
+         "srciterobj"]
 ABSENT = "<absent>"
 NAMES = {
     "Call": [ABSENT, "__call__", "my_call", "fill", "attr5", "nope"],
@@ -1205,3 +1228,6 @@ RULE += (' Accumulators also include user accumulators built on list and on dict
 RULE += (' Added: Filter with a user subclass of Selector that overrides __call__; a user callable / '
          'Variable getter that raises StopIteration for one value, under every driver (each must '
          'fail, none may end the flow silently).')
+RULE += (' Added to the adapter matrix: an element that is both callable and iterable.')
+RULE += (' Added: the bare accumulator as the first branch of a Split whose later branches change '
+         'the contexts they receive in place.')
